@@ -21,7 +21,7 @@ meta={"seed":id,"breaks_property":prop,"patch":"patch.diff","demonstration":"zz_
  "demo_package_dir":pkg,"needs_to_manifest":needs,
  "what_i_ran":["scratch worktree of /repo HEAD under /tmp: git apply patch.diff; go build ./...; /verif/tools/run_stable.sh (the 231 stable baseline tests)",
    "demo with the patch and again with the patch reverted (go test -run Demo in the demo package, private network namespace)",
-   "git -C /repo apply patch.diff; ./bin/vcheck %s --tier quick%s; git -C /repo checkout -- ."%(prop,(" --job "+job) if job else "")],
+   "VERIF_REPO=<scratch worktree with patch.diff applied> VERIF_OUT=<scratch> ./bin/vcheck %s --tier quick%s"%(prop,(" --job "+job) if job else "")],
  "confirmed":{"stable_suite":m.group(1) if m else None,"demo_with_patch":m.group(2).strip() if m else None,"demo_without_patch":m.group(3).strip() if m else None},
  "check":{"exit_code":int(c.group(1)) if c else None,"violation_lines":int(c.group(2)) if c else None,
           "reported":[l for l in out.splitlines() if l.startswith('VIOLATION') or 'assertion=' in l][:4]},
